@@ -115,6 +115,7 @@ with names_ctail (t : ctail) : list nat :=
 Definition rhs_of (e : expr) : rhs :=
   match e with
   | EName y => RCopy (vn y)
+  | EBin _ (EName y) (EConst _) => RCopy (vn y)   (* `y + 1`: the type of y (harness convention) *)
   | EConst (CInt z) => RLit (Z.to_nat z)     (* the model's type code of a literal *)
   | _ => RLit 0
   end.
